@@ -112,8 +112,9 @@ def ensure_streams(app: appboot.App):
     # samples last 120 / 180 ticks override it in their tfhd; the audio track uses tfhd defaults with trex 0
     v = mp4synth.make_track("video", 240, [960, 480, 960, 720, 960], samples_per_segment=4, seed=121, track_id=1,
                             sample_durations_in="trex")
+    # (its audio fragments are numbered from 5 while the video fragments are numbered from 1)
     a = mp4synth.make_track("audio", 48000, [192512, 96256, 192512, 144384, 192512], samples_per_segment=[188, 94, 188, 141, 188],
-                            seed=122, track_id=2, sample_durations_in="tfhd")
+                            seed=122, track_id=2, sample_durations_in="tfhd", start_number=5)
     mp4synth.register(app, "syn10", "Synthetic default sample durations", {"syn10_v1": v, "syn10_a1": a}, timing_from="syn10_v1")
     # synbig: two video segments larger than the window the segment loader's BufferedReader caches
     # (buffersize x max_buffers = 16384 x 30 bytes): 30 buckets + 5000 bytes, and 1.7 MB
@@ -122,6 +123,12 @@ def ensure_streams(app: appboot.App):
     a = mp4synth.make_track("audio", 48000, [192512, 191488, 192512, 191488], samples_per_segment=[188, 187, 188, 187],
                             seed=132, track_id=2, sample_durations_in="trun")
     mp4synth.register(app, "synbig", "Synthetic large segments", {"synbig_v1": v, "synbig_a1": a}, timing_from="synbig_v1")
+    # sy$n: a stream whose directory contains a `$` (legal, and special inside DASH URL templates, where it is
+    # written `$$`; not special inside a BaseURL or any other plain URL)
+    v = mp4synth.make_track("video", 240, [960, 960, 720], samples_per_segment=4, seed=141, track_id=1)
+    a = mp4synth.make_track("audio", 48000, [192512, 191488, 144384], samples_per_segment=[188, 187, 141], seed=142,
+                            track_id=2, sample_durations_in="trun")
+    mp4synth.register(app, "sy$n", "Synthetic, dollar in the directory", {"sydn_v1": v, "sydn_a1": a}, timing_from="sydn_v1")
     # synday: a timing reference longer than a day (timescale 1, ten segments of 9600 s = 26 h 40 min) – durations
     # whose days component is not zero (static manifests only)
     v = mp4synth.make_track("video", 1, [9600] * 10, samples_per_segment=4, seed=111, track_id=1)
@@ -233,6 +240,7 @@ class Fetch:
     walk_error: str | None = None
     listed_index: int | None = None     # index in the expanded timeline
     end_le_now: bool | None = None      # (t+d)/ts <= now - AST  (C01's condition)
+    adv_sn: int | None = None           # SegmentTemplate@startNumber the manifest advertises for this Representation
     win_off_us: int | None = None       # segment start minus the start of the time-shift window (µs, as of `now`)
     fetch_now_us: int | None = None     # clock of the media request when it differs from the manifest's
     before_window: bool | None = None   # t + d/2 < now - AST - timeShiftBufferDepth (listed although its
@@ -376,7 +384,7 @@ def walk_manifest(app, client, clock, stream: str, url: str, now: datetime.datet
                 t, d = rep.timeline[i]
                 u = rep.media_url(number=rep.start_number + i)
                 f = Fetch(url, iso(now), now_us, stream, rep.rep_id, "number", rep.start_number + i, d, u, 0,
-                          listed_index=i)
+                          listed_index=i, adv_sn=rep.start_number)
                 f.end_le_now = (t + d) * 1_000_000 <= rel_us * rep.timescale if mpd.type == "dynamic" else True
                 if mpd.type == "dynamic" and mpd.tsbd_us is not None:
                     f.before_window = (2 * t + d) * 1_000_000 < 2 * (rel_us - mpd.tsbd_us) * rep.timescale
@@ -395,6 +403,7 @@ def walk_manifest(app, client, clock, stream: str, url: str, now: datetime.datet
                 n = nums[i]
                 u = rep.media_url(number=n)
                 f = Fetch(url, iso(now), now_us, stream, rep.rep_id, "number", n, rep.duration, u, 0)
+                f.adv_sn = rep.start_number
                 f.end_le_now = True
                 if mpd.tsbd_us is not None:
                     rel_us = now_us - (mpd.ast_us or 0) - rep.period_start_us
